@@ -268,6 +268,9 @@ Inductive spankind : Type := SList | STuple | SRange | SArray | SIndex | SPeriod
 Record pspan := mkSpan { sp_kind : spankind; sp_labels : list Z }.
 Record subinfo := mkSub { si_span : pspan; si_LAGS : Z; si_LEADS : Z }.     (* class-level LAGS / LEADS *)
 
+Fixpoint zlist_eqb (a b : list Z) : bool :=
+  match a, b with [], [] => true | x :: a', y :: b' => Z.eqb x y && zlist_eqb a' b' | _, _ => false end.
+
 Definition elt_class (k : spankind) : nat :=
   match k with SPeriodIndex => 1 | SDatetimeIndex => 2 | _ => 0 end.
 (* the sequence of elements iterating over the span yields: (class, number) *)
